@@ -149,8 +149,8 @@ Theorem C10_scan_left_never_raises : forall cost thr filt orig,
 Proof. exact scan_left_never_raises. Qed.
 
 (* TreeScanningGateRemovalPass: invariant + monotonicity for every depth and direction *)
-Theorem C10_treescan_invariant : forall cost thr d orig its s,
-  treescan cost thr d orig its = Ok s ->
+Theorem C10_treescan_invariant : forall cost thr comp d orig its s,
+  treescan cost thr comp d orig its = Ok s ->
   ((s_grid s = orig /\ s_ver s = 0) \/ (1 <= s_ver s /\ (cost (s_ver s) (s_grid s) < thr)%Z))
   /\ sub (all_ops (s_grid s)) (all_ops orig) /\ num_ops (s_grid s) <= num_ops orig.
 Proof. exact treescan_invariant. Qed.
@@ -160,11 +160,17 @@ Proof. exact treescan_invariant. Qed.
    and raises IndexError on a three-gate line.  Both replay on the real pass. *)
 Definition C10_treescan_right_intended_full : Prop := forall cost thr d orig,
   wf orig -> 1 <= d -> exists rm v k,
-  treescan cost thr d orig (rev (iter_fwd orig)) = Ok (mkSt (prune rm orig) v k).
+  treescan cost thr true d orig (rev (iter_fwd orig)) = Ok (mkSt (prune rm orig) v k).
 Theorem C10_treescan_right_intended_refuted :
-  treescan cost12 5 1 w4 (rev (iter_fwd w4)) = Ok (mkSt [[(0, [0])]; [(2, [0])]] 2 4)
-  /\ treescan cost0 5 1 w3 (rev (iter_fwd w3)) = IndexErr /\ wf w4 /\ wf w3.
+  treescan cost12 5 true 1 w4 (rev (iter_fwd w4)) = Ok (mkSt [[(0, [0])]; [(2, [0])]] 2 4)
+  /\ treescan cost0 5 true 1 w3 (rev (iter_fwd w3)) = IndexErr /\ wf w4 /\ wf w3.
 Proof. exact (conj treescan_right_wrong_operation (conj treescan_right_raises (conj wf_w4 wf_w3))). Qed.
+
+(* the one-line guard of fixes/C10.T1.patch repairs both witnesses *)
+Theorem C10_treescan_right_guarded_witnesses :
+  treescan cost12 5 false 1 w4 (rev (iter_fwd w4)) = Ok (mkSt [[(0, [0])]; [(1, [0])]] 2 4)
+  /\ treescan cost0 5 false 1 w3 (rev (iter_fwd w3)) = Ok (mkSt [] 3 3).
+Proof. exact treescan_right_guarded. Qed.
 
 (* ExhaustiveGateRemovalPass: for every structure-deduplication that only drops candidates
    the frontier loop terminates, and commits the input or an accepted, strictly smaller one *)
